@@ -30,10 +30,10 @@ import translate  # noqa: E402
 
 # which Lean property files carry the theorems of each property
 PROPERTY_FILES = {
-    "C01": ["C01"], "C02": ["C02"], "C03": ["C03"], "C04": ["C04"], "C05": ["C05", "C05Log"],
-    "C06": ["C06", "C06Unbias"], "C07": ["C07"], "C08": ["C08"], "C09": ["C09"], "C10": ["C10"],
-    "C11": ["C11"], "C12": ["C12"], "C13": ["C13"], "C14": ["C14"], "C15": ["C15"], "C16": ["C16"],
-    "C17": ["C17"], "C18": ["C18"], "C19": ["C19"], "C20": ["C20"],
+    "C01": ["C01", "SrcLin"], "C02": ["C02", "SrcHll"], "C03": ["C03", "SrcHH"], "C04": ["C04", "SrcHH"], "C05": ["C05", "C05Log", "SrcLin"],
+    "C06": ["C06", "C06Unbias", "SrcRand"], "C07": ["C07"], "C08": ["C08", "C08Compose"], "C09": ["C09", "SrcLin"], "C10": ["C10"],
+    "C11": ["C11"], "C12": ["C12"], "C13": ["C13", "SrcHH"], "C14": ["C14"], "C15": ["C15"], "C16": ["C16"],
+    "C17": ["C17"], "C18": ["C18", "SrcLin"], "C19": ["C19"], "C20": ["C20"],
 }
 
 
@@ -60,6 +60,7 @@ class LeanStatus:
         self.theorems = {}  # name -> {"axioms": [...], "ok": bool}
         self.forbidden_hits = []
         self.leanchecker = "not run (quick tier)"
+        self.kernel_errors = []
         self.drifted = []
         self.wall = 0.0
 
@@ -145,6 +146,7 @@ def lean_check(pid, quick=True):
             r = translate.run()
             st.generated_changed = r["changed"]
             st.fingerprints = r["fingerprints"]
+            st.kernel_errors = r.get("kernel_errors", [])
             try:
                 base = json.load(open(os.path.join(VERIF, "harness", "fingerprints.json")))
                 st.drifted = sorted(k for k in set(base) | set(st.fingerprints) if base.get(k) != st.fingerprints.get(k))
@@ -397,6 +399,7 @@ def write_evidence(res, lean, level, extra_cov=None, assumptions=None, violation
         "lean_wall_s": round(lean.wall, 1) if lean else 0,
         "leanchecker": lean.leanchecker if lean else "",
         "drifted_kernels": lean.drifted if lean else [],
+        "kernel_translation_errors": lean.kernel_errors if lean else [],
         "budget_factor": FACTOR,
         "notes": res.notes,
     }
